@@ -29,7 +29,7 @@ def run(pid, part, indices, gmp, tier):
     for r in recs:
         if r.get("type") == "end":
             out[r["index"]] = (r.get("hash"), r.get("nchoices"), json.dumps(sorted((v["prop"], v["rule"]) for v in r.get("viol") or [])), r.get("skipped") or "")
-    return out, rc, err[-800:]
+    return out, rc, (err[:1500] + " ... " + err[-800:]) if len(err) > 2300 else err
 
 def main():
     sel = sys.argv[1:]
